@@ -219,6 +219,22 @@ def stepLicmp (st : St) (ws : List String) : St × String :=
         | .panic pk => (st, panicStr pk)
       | _, _ => (st, "bad-op")
     | _, _, _, _, _, _ => (st, "bad-op")
+  | ["licmp", "decser", k, hist, net, hex] =>
+    match kindOf k, mkBuf hist, parseNet net, bytesOfHex hex with
+    | some k, some buf, some ps, some data =>
+      match (fresh k).decode ⟨data, []⟩ with
+      | .panic pk => (st, panicStr pk)
+      | .err e => (st, e)
+      | .ok d =>
+        if d.err then (st, "err") else
+        let l := match d.layer with
+          | .icmp6 v => AnyLayer.icmp6 { v with pseudo := ps }
+          | x => x
+        match l.serialize (step buf (.prepend l.payload)) ⟨true, true⟩ with
+        | .ok (b', l') => (st, "ok b=" ++ hexOfBytes (contents b') ++ " " ++ kvStr (pubFields l'))
+        | .err _ => (st, "serr")
+        | .panic pk => (st, panicStr pk)
+    | _, _, _, _ => (st, "bad-op")
   | "licmp" :: "rt4" :: rest =>
     match parseKVs rest with
     | some m =>
